@@ -187,8 +187,10 @@ CLAIMED["C07"] = dict(
          "time bounds lie in that range. Together with the lemma text_roundtrip of C16 (printing then parsing a DID gives it back, for every generatable key code), command.Parse(s) = s for valid s (C15) and the seconds contract (C04), "
          "substituting the model of toIPLD into tokenFromModel gives back every field of the original token at whole-second resolution; the generic decoders return a token only through the typed ones (C06). "
          "No spurious rejection: envelope.Inspect and the typed FromIPLD (delegation, invocation) are verified complete — an envelope whose every stage is acceptable (shape, tag, schema-typed payload, parseable issuer with an extractable key, "
-         "announced header of that key's type, encodable signed part, verifying signature) and whose model is acceptable is decoded — over named verdict functions of the dependencies.",
-    note="Assumed (trusted): bindnode wrap/unwrap and the DAG-CBOR / DAG-JSON codecs round-trip the model (envelope.ToIPLD is used through a trusted contract naming the model it was given); signing and verification agree for every key algorithm "
-         "(the codec x key-algorithm matrix beyond go-ucan's own code is outside the verified text). The substitution step itself (composing the two verified contracts) is an argument on paper, not a machine-checked lemma: "
+         "announced header of that key's type, encodable signed part, verifying signature) and whose model is acceptable is decoded — over named verdict functions of the dependencies. "
+         "envelope.ToIPLD is verified (map / list builder model) to build exactly such an envelope: [signature, {h: varsig header of the key's type, tag: wrapped payload}] with the signature made over the DAG-CBOR encoding of the signed part; "
+         "lemma sealed_acceptable proves that it passes the envelope stage of FromIPLD under explicit hypotheses (the typed builder accepts the wrapped payload again, its iss entry parses to a DID whose key is the signing key's public key).",
+    note="Assumed (trusted): bindnode wrap/unwrap and the DAG-CBOR / DAG-JSON codecs round-trip the model (the model an envelope was built from is named by an assumed post-condition of envelope.ToIPLD); a signature made by a private key verifies under its public key, for every key algorithm "
+         "(the codec x key-algorithm matrix beyond go-ucan's own code is outside the verified text). The model-level substitution step (composing toIPLD's model contract with tokenFromModel's) is an argument on paper, not a machine-checked lemma: "
          "the model contains pointers, and lemmas are heap-free. Deep equality of policy leaf values and of metadata / argument values after the round trip rests on the codec assumption.",
     design="DESIGN.md §3 C07, §7")
